@@ -6,8 +6,9 @@
    SPEC   = Spec/SigTextSpec.v (wf values, reference reader, canonical lines), Spec/DbLoadSpec.v (what a database
             text denotes), Spec/DbDocSpec.v (documents: render / flatten), Spec/BundledSpec.v (the bundled file). *)
 From Coq Require Import List NArith Bool.
+From Coq Require Import Strings.Byte.
 From HN Require Import Base.Bytes Model.SigAst Model.SigText Model.DbLoad Spec.SigTextSpec Spec.DbLoadSpec
-  Spec.DbDocSpec Gen.Bundled Spec.BundledSpec Proofs.SigTextProofs Proofs.SigSpecProofs Proofs.DbLoadProofs
+  Spec.DbDocSpec Gen.Bundled Spec.BundledSpec Proofs.SigTextProofs Proofs.SigSpecProofs Proofs.SigEquivProofs Proofs.DbLoadProofs Proofs.DbTextProofs
   Proofs.BundledProofs Proofs.FuelProofs.
 Import ListNotations.
 Open Scope N_scope.
@@ -86,6 +87,16 @@ Example C06_canonical_hypotheses :
   canonical_http (bs "1:Host:,Via:Firefox/") = false.
 Proof. vm_compute. repeat split; reflexivity. Qed.
 
+(* the model of the nom parsers (alt ordering, backtracking, map_res) and the independent split-based reference
+   reader agree on EVERY line: same acceptance, same value — canonical, non-canonical (leading zeros, empty
+   header names) and invalid lines alike.  No exception class was needed. *)
+Theorem C06_model_equals_reference :
+  (forall l : bytes, tcp_sig_from_str l = spec_tcp l) /\ (forall l : bytes, http_sig_from_str l = spec_http l).
+Proof. split; [exact tcp_model_eq_spec | exact http_model_eq_spec]. Qed.
+Check C06_model_equals_reference :
+  (forall l : bytes, tcp_sig_from_str l = spec_tcp l) /\ (forall l : bytes, http_sig_from_str l = spec_http l).
+Print Assumptions C06_model_equals_reference.
+
 (* numbers that do not fit their Rust type are rejected, never wrapped or defaulted (`?300` used to load as `?0`):
    an option number above 255, a TTL above 255 — for every digit string d, whatever follows the token *)
 Theorem C06_overflow_rejected :
@@ -131,6 +142,35 @@ Example C06_db_load_hypotheses :
                db_mtu db = [(bs "Ethernet or modem", [576; 1500])] /\ length (db_ua_os db) = 2%nat
   | None => False end.
 Proof. vm_compute. repeat split; reflexivity. Qed.
+
+(* towards the text-level statement on ARBITRARY texts: the line-level readers of the loader model equal those of
+   the reference reader (Spec/DbLoadSpec.v) on every input — label values, MTU values, the `name = value`
+   split (any blanks around '='), and trimming (Unicode trim = ASCII trim whenever the trimmed line has ASCII
+   edges, which is the reference reader's stated domain).  Together with C06_model_equals_reference every
+   VALUE reader of a database line is covered; not yet composed into  known_db t = false -> load t = spec_load t
+   (missing: `[module]` / `classes` / `ua_os` lines on arbitrary text, the line dispatch, the fold). *)
+Theorem C06_line_readers_equal_reference :
+  (forall v : bytes, match parse_label v with
+                     | Some (l, r) => r = [] /\ spec_label v = Some l
+                     | None => spec_label v = None end) /\
+  (forall v : bytes, u16_from_str v = rd_mtu v) /\
+  (forall l : bytes, parse_named_value l =
+     match cut "="%byte l with
+     | Some (lhs, rhs) => if word alnum (rtrim_blank lhs) then Some (rtrim_blank lhs, drop_while isblank rhs) else None
+     | None => None end) /\
+  (forall raw : bytes, non_ascii_edge raw = false -> trim raw = trim_ascii raw).
+Proof. split; [exact parse_label_eq_spec | split; [exact u16_from_str_eq_spec | split; [exact parse_named_value_eq_spec | exact trim_eq_trim_ascii]]]. Qed.
+Check C06_line_readers_equal_reference :
+  (forall v : bytes, match parse_label v with
+                     | Some (l, r) => r = [] /\ spec_label v = Some l
+                     | None => spec_label v = None end) /\
+  (forall v : bytes, u16_from_str v = rd_mtu v) /\
+  (forall l : bytes, parse_named_value l =
+     match cut "="%byte l with
+     | Some (lhs, rhs) => if word alnum (rtrim_blank lhs) then Some (rtrim_blank lhs, drop_while isblank rhs) else None
+     | None => None end) /\
+  (forall raw : bytes, non_ascii_edge raw = false -> trim raw = trim_ascii raw).
+Print Assumptions C06_line_readers_equal_reference.
 
 (* ---------- (4) a text with an error is rejected as a whole ---------- *)
 Theorem C06_db_all_or_nothing :
